@@ -325,6 +325,84 @@ pub fn queries(sink: &mut Sink, rng: &mut Rng, thorough: bool, work: &Path) {
         }
       }
     }
+    // `union`: same regions through `mocset union <depth> moc`, explicit identifier lists, and positions
+    let parse_ascii = |out: &str| -> String {
+      match moc::deser::ascii::from_ascii_ivoa::<u64, Hpx<u64>>(out) {
+        Ok(m) => {
+          use moc::moc::{CellOrCellRangeMOCIntoIterator, CellOrCellRangeMOCIterator, HasMaxDepth};
+          let d = m.depth_max();
+          let r: RangeMOC<u64, Hpx<u64>> = m.into_cellcellrange_moc_iter().ranges().into_range_moc();
+          format!("{}|{}", d, fmt_ranges(&moc_ranges_u64(&r)))
+        }
+        Err(e) => format!("unreadable: {}", e),
+      }
+    };
+    for _ in 0..(if thorough { 12 } else { 6 }) {
+      let e = rng.pick(&entries).clone();
+      let rd = 12 + rng.below(5) as u8;
+      let unit = 1u64 << (2 * (29 - rd as u32));
+      let r0 = rng.pick(&e.ranges).clone();
+      let c = ((if rng.chance(1, 2) { r0.start } else { r0.end - 1 }) / unit + rng.below(3)).saturating_sub(1);
+      let region = vec![c * unit..(c + 1 + rng.below(2)) * unit];
+      let reg_entry = Entry { id: 0, status: 3, depth: rd, ranges: region.clone() };
+      let rp = dir.join("uregion.txt");
+      fs::write(&rp, reg_entry.ascii()).unwrap();
+      // output depth: shallower than, equal to, deeper than the stored depths
+      let od = *rng.pick(&[3u8, 10, 12, 13, 14, 16, 29]);
+      let ods = od.to_string();
+      for included in [false, true] {
+        let dep = rng.chance(1, 2);
+        let mut args: Vec<&str> = vec!["union"];
+        if dep { args.push("-d"); }
+        args.push(file.to_str().unwrap());
+        args.push(&ods);
+        args.extend(["moc", "-f", "ascii"]);
+        if included { args.push("-i"); }
+        args.push(rp.to_str().unwrap());
+        args.push("ascii");
+        let r = run("mocset", &args, None, &[]);
+        let ans = if r.ok { parse_ascii(&r.out) } else { format!("err {}", r.err.lines().next().unwrap_or("")) };
+        sink.count(&format!("union:moc-{}", if included { "included" } else { "intersect" }));
+        sink.emit(&format!("mu {} {} {} {} {}", etxt, included as u8, dep as u8, fmt_ranges(&region), od), &ans, true);
+      }
+      // ids: a random subset, possibly with unknown identifiers
+      let mut ids: Vec<u64> = entries.iter().filter(|_| rng.chance(1, 2)).map(|e| e.id).collect();
+      if rng.chance(1, 3) { ids.push(99); }
+      if ids.is_empty() { ids.push(entries[0].id); }
+      let idl = ids.iter().map(|x| x.to_string()).collect::<Vec<_>>().join(",");
+      let r = run("mocset", &["union", file.to_str().unwrap(), &ods, "ids", &idl, "ascii"], None, &[]);
+      let ans = if r.ok { parse_ascii(&r.out) } else { format!("err {}", r.err.lines().next().unwrap_or("")) };
+      sink.count("union:ids");
+      sink.emit(&format!("mui {} {} {}", etxt, idl, od), &ans, true);
+      // position: the centre of a depth-16 cell chosen inside / at the edge of / outside a stored range; its
+      // deepest-level index is computed by cdshealpix (oracle for the hash only)
+      let cell16 = { let u16_ = 1u64 << (2 * (29 - 16)); ((if rng.chance(1, 2) { r0.start } else { r0.end - 1 }) / u16_ + rng.below(3)).saturating_sub(1) };
+      let (lon, lat) = cdshealpix::nested::center(16, cell16);
+      let (lon_deg, lat_deg) = (lon.to_degrees(), lat.to_degrees());
+      if lon_deg >= 0.0 && lon_deg < 360.0 && lat_deg > -90.0 && lat_deg < 90.0 {
+        let (lon_s, lat_s) = (format!("{:.12}", lon_deg), format!("{:.12}", lat_deg));
+        let (lon_p, lat_p): (f64, f64) = (lon_s.parse().unwrap(), lat_s.parse().unwrap());
+        let idx = cdshealpix::nested::hash(29, lon_p.to_radians(), lat_p.to_radians());
+        for dep in [false, true] {
+          let mut args: Vec<&str> = vec!["query"];
+          if dep { args.push("-d"); }
+          args.extend([file.to_str().unwrap(), "pos", &lon_s, &lat_s]);
+          let r = run("mocset", &args, None, &[]);
+          let mut got: Vec<u64> = r.out.lines().skip(1).filter_map(|l| l.trim().split(',').next().and_then(|x| x.parse().ok())).collect();
+          got.sort_unstable();
+          let ans = if !r.ok { "err".to_string() } else if got.is_empty() { "_".to_string() } else { got.iter().map(|x| x.to_string()).collect::<Vec<_>>().join(",") };
+          sink.count("query:pos");
+          sink.emit(&format!("mqp {} {} {}", etxt, dep as u8, idx), &ans, true);
+          let mut args: Vec<&str> = vec!["union"];
+          if dep { args.push("-d"); }
+          args.extend([file.to_str().unwrap(), &ods, "pos", &lon_s, &lat_s, "ascii"]);
+          let r = run("mocset", &args, None, &[]);
+          let ans = if r.ok { parse_ascii(&r.out) } else { format!("err {}", r.err.lines().next().unwrap_or("")) };
+          sink.count("union:pos");
+          sink.emit(&format!("mup {} {} {} {}", etxt, dep as u8, idx, od), &ans, true);
+        }
+      }
+    }
     let _ = fs::remove_dir_all(&dir);
   }
   let _ = <Hpx<u64> as MocQty<u64>>::MAX_DEPTH;
